@@ -89,7 +89,7 @@ def _remap_term(t, lm, bm):
     return t
 
 
-def _callee_body(f, t, caller_def):
+def _callee_body(f, t, caller_def, caller_generic=True):
     c = t['callee']
     if not c.get('local') or c.get('def') is None:
         return None
@@ -100,14 +100,24 @@ def _callee_body(f, t, caller_def):
     if d == caller_def:
         return None
     fn = f.fns.get(d)
-    gb = f.generic_body(d)
+    gb = None
+    if not caller_generic and res and res.get('id') in f.bodies and not f.bodies[res['id']]['generic']:
+        gb = f.bodies[res['id']]    # the monomorphic instance the (monomorphic) caller really calls: its trait calls are resolved
+    if gb is None:
+        gb = f.generic_body(d)
     if gb is None or gb.get('closure_of'):
         return None
+    if d.startswith('<') and ' as ' in d.split('>::')[0]:
+        # a trait impl method: inlined only for crate-private traits (`trait Direction { fn reaches(..) }`); methods of the public
+        # traits (Method::next of a sub-method, OHLCV accessors, ...) are steps / contracts, not helpers
+        tr = d.split(' as ', 1)[1].split('>::')[0].split('<')[0]
+        trec = f.traits.get(tr)
+        if trec is None or trec.get('vis') == 'pub':
+            return None
+        return gb
     # inherent / free private helpers and private trait-less associated functions; public API functions stay calls (their contracts are rules of their own)
     if fn is not None and fn.get('vis') == 'pub':
         return None
-    if d.startswith('<') and ' as ' in d.split('>::')[0]:
-        return None                 # a trait impl method (Method::next of a sub-method, ...): a step, not a helper
     return gb
 
 
@@ -124,7 +134,7 @@ def inlined(f, bj, depth=2, _stack=()):
             break
         t = blocks[i]['term']
         if t['t'] == 'call' and t.get('target') is not None:
-            gb = _callee_body(f, t, bj['def'])
+            gb = _callee_body(f, t, bj['def'], bj.get('generic', True))
             if gb is not None and gb['def'] not in _stack and gb['arg_count'] == len(t['args']):
                 cb = inlined(f, gb, depth - 1, _stack + (bj['def'],))
                 loff = len(locals_)
@@ -163,4 +173,92 @@ def inlined(f, bj, depth=2, _stack=()):
     out['blocks'] = blocks
     out['locals'] = locals_
     out['inlined'] = True
+    if not _stack:
+        _propagate_reference_aliases(out)
     return out
+
+
+def _propagate_reference_aliases(bj):
+    """`_p = &mut (*_1).value; ...; *_p = x`  ==>  `(*_1).value = x`: a reference local with a single definition that borrows a place is
+    replaced, where it is dereferenced, by that place.  After inlining, the `&mut self.field` arguments of a helper make the helper's
+    stores and reads direct accesses to the caller's fields."""
+    blocks = bj['blocks']
+    ndefs = {}
+    refdef = {}
+    for blk in blocks:
+        for s in blk['stmts']:
+            if s.get('s') == 'assign' and not s['pl'].get('p'):
+                l = s['pl']['l']
+                ndefs[l] = ndefs.get(l, 0) + 1
+                rv = s['rv']
+                if rv.get('r') == 'ref' and isinstance(rv.get('pl'), dict):
+                    refdef[l] = ('place', rv['pl'])
+                elif rv.get('r') == 'use' and rv['a'].get('o') in ('move', 'copy') and not rv['a']['pl'].get('p'):
+                    refdef[l] = ('copy', rv['a']['pl']['l'])
+                else:
+                    refdef.pop(l, None)
+        t = blk['term']
+        if t['t'] == 'call' and not t['dest'].get('p'):
+            ndefs[t['dest']['l']] = ndefs.get(t['dest']['l'], 0) + 1
+    nargs = bj['arg_count']
+    alias = {}
+
+    def resolve(l, depth=0):
+        if l in alias:
+            return alias[l]
+        if depth > 8 or ndefs.get(l, 0) != 1 or l not in refdef or 1 <= l <= nargs:
+            return None
+        if not bj['locals'][l]['ty'].startswith('&'):
+            return None
+        kind, x = refdef[l]
+        if kind == 'copy':
+            r = resolve(x, depth + 1)
+        else:
+            r = subst_place(x, depth + 1)
+        if r is not None:
+            alias[l] = r
+        return r
+
+    def subst_place(pl, depth=0):
+        """the place with a leading deref of an aliased reference local replaced by the borrowed place"""
+        p = pl.get('p') or []
+        if p and p[0].get('p') == 'deref':
+            base = resolve(pl['l'], depth)
+            if base is not None:
+                return {'l': base['l'], 'p': list(base.get('p') or []) + list(p[1:]), 'ty': pl.get('ty')}
+        return pl
+
+    def fix_operand(o):
+        if isinstance(o, dict) and o.get('o') in ('copy', 'move') and 'pl' in o:
+            np_ = subst_place(o['pl'])
+            if np_ is not o['pl']:
+                o = dict(o, pl=np_)
+        return o
+
+    for blk in blocks:
+        new_stmts = []
+        for s in blk['stmts']:
+            if s.get('s') == 'assign':
+                s = dict(s)
+                if s['pl'].get('p'):
+                    s['pl'] = subst_place(s['pl'])
+                rv = dict(s['rv'])
+                for k in ('a', 'b'):
+                    if isinstance(rv.get(k), dict) and 'o' in rv[k]:
+                        rv[k] = fix_operand(rv[k])
+                if isinstance(rv.get('pl'), dict):
+                    rv['pl'] = subst_place(rv['pl'])
+                if isinstance(rv.get('ops'), list):
+                    rv['ops'] = [fix_operand(x) for x in rv['ops']]
+                s['rv'] = rv
+            new_stmts.append(s)
+        blk['stmts'] = new_stmts
+        t = blk['term']
+        if t['t'] == 'call':
+            t = dict(t)
+            t['args'] = [fix_operand(a) for a in t['args']]
+            if t['dest'].get('p'):
+                t['dest'] = subst_place(t['dest'])
+            blk['term'] = t
+        elif t['t'] == 'switch':
+            blk['term'] = dict(t, discr=fix_operand(t['discr']))
